@@ -393,7 +393,8 @@ impl ServiceDaemon {
     ///
     /// The functionality is identical to 'browse', but the service events are based solely on the contents
     /// of the daemon's cache. No actual mDNS query is sent to the network, neither at once
-    /// nor later to refresh cached records of this type. As any new browse of a type replaces
+    /// nor later to refresh cached records of this type or to complete an instance whose
+    /// records are only partly cached. As any new browse of a type replaces
     /// the earlier one, calling this for a type that [`browse`](Self::browse) is querying for
     /// ends those queries, and a later `browse` of the type starts them again.
     ///
@@ -2704,8 +2705,11 @@ impl Zeroconf {
             self.resolved.insert(instance);
         }
 
-        for instance in unresolved.drain() {
-            self.add_pending_resolve(instance);
+        // A cache-only browse sends no query, so it asks for no follow-up either.
+        if !self.cache_only_queriers.contains(ty_domain) {
+            for instance in unresolved.drain() {
+                self.add_pending_resolve(instance);
+            }
         }
     }
 
@@ -3222,7 +3226,10 @@ impl Zeroconf {
                             .or_insert_with(HashSet::new)
                             .insert(instance.to_string());
                     }
-                    unresolved.insert(instance.to_string());
+                    // No follow-up query on behalf of a cache-only browse.
+                    if !self.cache_only_queriers.contains(ty_domain) {
+                        unresolved.insert(instance.to_string());
+                    }
                 }
             }
         }
